@@ -450,6 +450,54 @@ theorem exit_law (w : World K) (wt : K → K) (hex : w.exited = false)
 
 end
 
+/-! ### Stop Touch reaches every phase of a turn (inner sleep, hold-up for a human) -/
+
+section
+variable {K : Type} [Num K]
+
+/-- Stop Touch (and Look To) reach the waiting rhythm: `return_to_mainloop()` raises the flag of the
+wrapper whatever the main thread is doing. -/
+theorem return_request_raises_flag (wt : K → K) (ct : K) (w : World K) (wr : WaitR K)
+    (hstub : w.rh.stub = none) (hw : w.rh.wait = some wr) :
+    (World.applyOut wt ct w .rReturn).rh.wait = some { wr with shouldReturn := true } := by
+  unfold World.applyOut
+  simp only [hstub, hw, Option.map_some]
+
+/-- **A request that arrives while the main thread still sleeps towards a human's place is not lost**:
+when that sleep ends and the human has not rung, the hold-up loop is entered with the flag still up … -/
+theorem return_request_survives_inner_wait (wt : K → K) (w : World K) (wr : WaitR K) (bell : Nat) (hand : Bool)
+    (hpc : w.pc = .innerSlept bell true hand) (hstub : w.rh.stub = none) (hw : w.rh.wait = some wr)
+    (hexp : (wr.expected hand).contains bell = true) :
+    (w.mainStep wt).1.pc = .userPoll bell true hand W0 ∧ (w.mainStep wt).1.rh.wait = some wr := by
+  unfold World.mainStep
+  simp only [hpc, hstub]
+  unfold World.afterInner
+  simp only [hw, hexp, if_true, Bool.false_and, Bool.not_true, Bool.or_self, Bool.false_eq_true, if_false]
+  exact ⟨trivial, trivial⟩
+
+/-- … and the first test of the hold-up loop then ends the turn (`finishTick`: back to the tick loop,
+which finds `is_ringing` false, C19 `no_new_turn_when_stopped`) whether or not the human ever rings. -/
+theorem return_request_ends_hold_up (wt : K → K) (w : World K) (wr : WaitR K) (bell : Nat) (hand : Bool) (d : K)
+    (hpc : w.pc = .userPoll bell true hand d) (hw : w.rh.wait = some wr) (hret : wr.shouldReturn = true) :
+    ∃ w1 : World K, w.mainStep wt = w1.finishTick wt bell true ∧ w1.bot = w.bot ∧
+      ∃ wr1, w1.rh.wait = some wr1 ∧ wr1.shouldReturn = false := by
+  unfold World.mainStep
+  simp only [hpc]
+  unfold World.afterInner
+  simp only [hw, hret, if_true, Bool.and_self, Bool.true_or]
+  exact ⟨_, rfl, rfl, _, rfl, rfl⟩
+
+/-- The turn that `finishTick` ends does not come back to a wait: the main thread is at the tick
+sleep, or has died with the recorded exception. -/
+theorem finishTick_leaves_wait (wt : K → K) (w : World K) (bell : Nat) (uc : Bool) :
+    (w.finishTick wt bell uc).1.pc = .tickSlept ∨ (w.finishTick wt bell uc).1.pc = .done := by
+  unfold World.finishTick
+  split
+  split
+  · right; rfl
+  · left; rfl
+end
+
 theorem inactivity_is_300s : Generated.inactivityExitTime = (300, 1) := rfl
 
 end Wheatley.C19
